@@ -62,3 +62,32 @@ Example plot_curves_example :
   plot_curves [1%N; 2%N] (fun t => [([72%N], (t * 10)%N); ([74%N], (t * 10 + 1)%N)]) [[74%N]; [72%N]]
   = Some [([74%N], [11%N; 21%N]); ([72%N], [10%N; 20%N])].
 Proof. exact Proofs.SeriesAsmP.plot_curves_example. Qed.
+
+(* ---------- which curves are drawn and in which order when display == "all" *)
+(* "dataset" order is the order of the data set's own nuclide list restricted to the decayed inventory *)
+Theorem dataset_order_spec : forall (input names : list str),
+  NoDup names -> NoDup input -> (forall n, In n input -> In n names) ->
+  sort_list_according_to_dataset input names = OK (filter (fun n => l_mem_str n input) names).
+Proof. exact Proofs.SeriesAsmP.dataset_order_spec. Qed.
+
+(* it fails (KeyError) exactly when a nuclide is not in the data set *)
+Theorem dataset_order_keyerror : forall (input names : list str),
+  (exists n, In n input /\ ~ In n names) <-> sort_list_according_to_dataset input names = Raise KeyError.
+Proof. exact Proofs.SeriesAsmP.dataset_order_keyerror. Qed.
+
+Theorem plot_display_all_spec : forall (order : str) (decayed names : list str),
+  NoDup names -> NoDup decayed -> (forall n, In n decayed -> In n names) ->
+  plot_display_all order decayed names =
+    if s_eqb order s_dataset then OK (filter (fun n => l_mem_str n decayed) names)
+    else if s_eqb order s_alphabetical then OK decayed
+    else Raise ValueError.
+Proof. exact Proofs.SeriesAsmP.plot_display_all_spec. Qed.
+
+Example dataset_order_example :
+  sort_list_according_to_dataset [[3%N]; [1%N]; [2%N]] [[1%N]; [9%N]; [2%N]; [3%N]] = OK [[1%N]; [2%N]; [3%N]].
+Proof. exact Proofs.SeriesAsmP.dataset_order_example. Qed.
+
+(* the two order keywords are the literals of the source *)
+From Coq Require Import String.
+Theorem order_literals : s_dataset = s2l "dataset" /\ s_alphabetical = s2l "alphabetical".
+Proof. exact Proofs.SeriesAsmP.order_literals. Qed.
